@@ -161,13 +161,16 @@ def same(c, a, b):
 
 
 def case_sequence(seq):
+    nsrc = 1
+    if seq and seq[0] == 'nsrc2':        # two source-frequency pairs
+        nsrc, seq = 2, tuple(seq[1:])
     E = shadow.load()
     c = set_ctx(Ctx(timeout_ms=60000))
     State.OBJECT_ALLOC = True
     warnings.filterwarnings('ignore')
-    grp = "history "+' -> '.join(seq)
+    grp = "history "+' -> '.join(seq)+(" (2 sources)" if nsrc == 2 else "")
     W = simx.World()
-    X = c07.build(E, c, 'ee', ANISO, MAPPING, W=W, sim_kw=SIM_KW)
+    X = c07.build(E, c, 'ee', ANISO, MAPPING, W=W, sim_kw=SIM_KW, nsrc=nsrc)
     X2 = None
     t0 = time.time()
     try:
@@ -215,7 +218,8 @@ def case_sequence(seq):
                                 what='exception'))]
         # fresh simulation: same survey content, current model, same options
         c07.teardown(E, X)
-        X2 = c07.build(E, c, 'ee', ANISO, MAPPING, W=W, sim_kw=SIM_KW)
+        X2 = c07.build(E, c, 'ee', ANISO, MAPPING, W=W, sim_kw=SIM_KW,
+                       nsrc=nsrc)
         if st['mtag'] != 'p':
             X2['sim'].model = _new_model(E, c, X2['sim'], st['mtag'])
             X2['sim'].clean('computed')
@@ -225,7 +229,8 @@ def case_sequence(seq):
         # same call on a fresh simulation (which needs a misfit first)
         if diff is None and seq[-1] in ('jvec', 'jtvec'):
             c07.teardown(E, X2)
-            X2 = c07.build(E, c, 'ee', ANISO, MAPPING, W=W, sim_kw=SIM_KW)
+            X2 = c07.build(E, c, 'ee', ANISO, MAPPING, W=W, sim_kw=SIM_KW,
+                           nsrc=nsrc)
             if st['mtag'] != 'p':
                 X2['sim'].model = _new_model(E, c, X2['sim'], st['mtag'])
                 X2['sim'].clean('computed')
@@ -258,7 +263,7 @@ def case_sequence(seq):
         return [ob(f"{diff} equals that of a fresh simulation", 'cex',
                    group=grp, cls='NRA-small', seconds=time.time()-t0,
                    key=key, cex=dict(kind='history', seq=list(seq),
-                                     what=diff))]
+                                     what=diff, nsrc=nsrc))]
     return [ob("synthetic data, misfit and gradient equal those of a fresh "
                "simulation (any interpretation of Solve)", 'held',
                group=grp, cls='NRA-small', seconds=time.time()-t0,
@@ -277,7 +282,9 @@ def replay(cex):
     grid = emg3d.TensorMesh([np.array([2., 1., 1., 2.])*100,
                              np.array([1., 1., 2., 1.])*100,
                              np.array([1., 2., 1.])*100], (0, 0, 0))
-    src = [emg3d.TxElectricDipole((250., 150., 150., 20., 10.))]
+    nsrc = cex.get('nsrc', 1)
+    src = [emg3d.TxElectricDipole((250.+25*i, 150., 150., 20., 10.))
+           for i in range(nsrc)]
     rec = [emg3d.RxElectricPoint((225., 250., 200., 0., 0.)),
            emg3d.RxElectricPoint((275., 225., 225., 30., 10.))]
 
@@ -287,11 +294,12 @@ def replay(cex):
                                                       grid.shape_cells),
                            property_z=r.uniform(0, 1, grid.shape_cells),
                            mapping='LgResistivity')
-    data = rng.normal(size=(1, 2, 1))*1e-9+1j*rng.normal(size=(1, 2, 1))*1e-9
+    data = (rng.normal(size=(nsrc, 2, 1)) +
+            1j*rng.normal(size=(nsrc, 2, 1)))*1e-9
     opts = dict(gridding='same', max_workers=1, verb=0,
                 receiver_interpolation='linear', tqdm_opts=False,
-                solver_opts=dict(tol=1e-8, tol_gradient=1e-2, plain=True,
-                                 maxit=100))
+                solver_opts=dict(tol=1e-10, tol_gradient=1e-2, plain=True,
+                                 maxit=200))
 
     def mk_sim(mseed):
         survey = emg3d.Survey(src, rec, [1.0], data=data.copy(),
@@ -312,7 +320,7 @@ def replay(cex):
                 lastarg = rng.normal(size=(2,)+tuple(grid.shape_cells))
                 lastret = np.array(sim.jvec(lastarg))
             elif name == 'jtvec':
-                lastarg = rng.normal(size=(1, 2, 1))+0j
+                lastarg = rng.normal(size=(nsrc, 2, 1))+0j
                 lastret = np.array(sim.jtvec(lastarg))
             elif name == 'get_efield':
                 sim.get_efield('TxED-1', 'f-1')
@@ -355,8 +363,8 @@ def replay(cex):
             wantret = np.array(f2.jvec(lastarg) if seq[-1] == 'jvec'
                                else f2.jtvec(lastarg))
             bad = lastret.shape != wantret.shape or not np.allclose(
-                lastret, wantret, rtol=1e-3,
-                atol=1e-3*np.abs(wantret).max())
+                lastret, wantret, rtol=1e-5,
+                atol=1e-6*np.abs(wantret).max())
             return bad, (f"real Simulation: {seq[-1]} after "
                          f"{' -> '.join(seq[:-1])} returns "
                          f"{'a different' if bad else 'the same'} result "
@@ -367,13 +375,13 @@ def replay(cex):
     finally:
         shutil.rmtree(tmp, ignore_errors=True)
     msgs = []
-    if not np.allclose(got[0], want[0], rtol=1e-4, equal_nan=True,
+    if not np.allclose(got[0], want[0], rtol=1e-6, equal_nan=True,
                        atol=1e-6*np.nanmax(np.abs(want[0]))):
         msgs.append("synthetic data differ")
-    if not np.isclose(got[1], want[1], rtol=1e-4, atol=0):
+    if not np.isclose(got[1], want[1], rtol=1e-6, atol=0):
         msgs.append(f"misfit {got[1]:.6e} vs fresh {want[1]:.6e}")
     if got[2].shape != want[2].shape or not np.allclose(
-            got[2], want[2], rtol=1e-3, atol=1e-3*np.abs(want[2]).max()):
+            got[2], want[2], rtol=1e-5, atol=1e-6*np.abs(want[2]).max()):
         msgs.append(f"gradient differs (max |fresh| "
                     f"{np.abs(want[2]).max():.3e}, max diff "
                     f"{np.abs(got[2]-want[2]).max() if got[2].shape == want[2].shape else 'shape'})")
@@ -398,7 +406,13 @@ def sequences(tier):
              ('misfit', 'jtvec', 'jtvec'), ('gradient', 'jtvec', 'jtvec'),
              ('jtvec', 'jvec', 'jtvec'), ('jtvec', 'clean_computed', 'jtvec'),
              ('jvec', 'jtvec', 'jvec'), ('jtvec', 'copy', 'jtvec'),
-             ('jtvec', 'update_model', 'jtvec')]
+             ('jtvec', 'update_model', 'jtvec'),
+             # partially computed simulations (one of two pairs)
+             ('nsrc2', 'get_efield', 'copy'), ('nsrc2', 'get_efield', 'dict'),
+             ('nsrc2', 'get_efield', 'copy_results'),
+             ('nsrc2', 'get_efield', 'clean_keepresults'),
+             ('nsrc2', 'get_efield', 'jvec'), ('nsrc2', 'gradient', 'copy'),
+             ('nsrc2', 'get_efield', 'to_file_results')]
     if tier != 'quick':
         core = ['compute', 'gradient', 'jvec', 'jtvec', 'clean_computed',
                 'clean_keepresults', 'copy_results', 'dict',
